@@ -118,10 +118,11 @@ class FindInPaths(FindByGlob):
                 pattern = pattern.replace(key, value)
 
             debug(f"Search pattern: {pattern}")
-            if pattern in searched.get(search.type, []):
+            # two searches can share a pattern (mapped values) and still differ: the found Sids are matched against the search
+            if (pattern, str(search)) in searched.get(search.type, []):
                 continue
             else:
-                searched[search.type].append(pattern)
+                searched[search.type].append((pattern, str(search)))
 
             debug(f"Now searching pattern: {pattern}")
             found = glob.glob(pattern)
